@@ -654,3 +654,14 @@ VARIANTS += [
       "                    if qname in {reexport_name_backward, f\"{mod.id.replace('/', '.')}.{reexport_name_backward}\"}:\n                        reexported_by.add(mod)",
       "                    if True:\n                        reexported_by.add(mod)", "C03.MOVE"),
 ]
+# ---- fourth rewrite probe (behaviour-preserving rewrites of the code the sixth-round repairs touched): the three that raised a false alarm are locked in
+VARIANTS += [
+    V("C04", "benign: by-name resolutions compared one by one", VIS,
+      "                            if qname in {\n                                qualified_import.qualified_name,\n                                f\"{reexport_source.id.replace('/', '.')}.{qualified_import.qualified_name}\",\n                            } and (",
+      "                            if (\n                                qname == qualified_import.qualified_name\n                                or qname == f\"{reexport_source.id.replace('/', '.')}.{qualified_import.qualified_name}\"\n                            ) and (", None),
+    V("C04", "benign: star import resolutions compared one by one", VIS,
+      "                                        and module_qname\n                                        in {\n                                            wildcard_import.module_name,\n                                            f\"{reexport_source.id.replace('/', '.')}.{wildcard_import.module_name}\",\n                                        }",
+      "                                        and (\n                                            module_qname == wildcard_import.module_name\n                                            or module_qname == f\"{reexport_source.id.replace('/', '.')}.{wildcard_import.module_name}\"\n                                        )", None),
+    V("C10", "benign: relocated module id spelled with dots by split and join", "stubs_generator/_generate_stubs.py",
+      "            qname=module.id.replace(\"/\", \".\"),\n            is_module=True,", "            qname=\".\".join(module.id.split(\"/\")),\n            is_module=True,", None),
+]
